@@ -368,3 +368,27 @@ Definition run_c14 (st : dstate) (xs : list sexp) : outcome :=
       end
   | _ => out_bad "c14 arity"
   end.
+
+(* C13, "makes every operation total": merge, compare, field set, remove/extract and
+   re-validation of two accepted values of one type; the model must succeed too *)
+Definition run_c13_total (st : dstate) (sid tr a b res : sexp) : outcome :=
+  match sid, dec_typeref tr, dec_value a, dec_value b, res with
+  | SAtom sid, Some tr, Some a, Some b, SList rs =>
+      match ds_schema st sid with
+      | None => out_bad "c13.total schema"
+      | Some s =>
+          let names := ["merge"; "compare"; "field set"; "remove / extract"; "validate"]%string in
+          let bad := flat_map (fun nr : string * sexp =>
+                                 match snd nr with
+                                 | SAtom "ok" => []
+                                 | SAtom "panic" => [("prop C13 an operation on accepted values panicked: " ++ fst nr)%string]
+                                 | _ => [("prop C13 an operation on accepted values failed: " ++ fst nr)%string]
+                                 end) (combine names rs) in
+          let corr :=
+            chk (match merge s tr a b with Some (Some _) => true | _ => false end) "corr the model merges accepted values" @@
+            chk (match compare s tr a b with Some _ => true | None => false end) "corr the model compares accepted values" @@
+            chk (match to_field_set s tr a with Some _ => true | None => false end) "corr the model builds the field set of an accepted value" in
+          mkOut (corr @@ bad) 5 1 ["total"]
+      end
+  | _, _, _, _, _ => out_bad "c13.total"
+  end.
